@@ -164,8 +164,9 @@ def channelize_streaming(vc):
     q = Int('q')
     L2 = Lfed + m * P
     vc.ensure('C08/channelize/post/streaming-invariant-re-established',
-              And(isinstance(c, SArr) and c.ndim == 1, eq(c.shape[0], P),
-                  Implies(And(q >= 0, q < P), And(eq(SCplx.lift(c.at((q,))).re, SCplx.lift(S(L2 - P + q)).re), eq(SCplx.lift(c.at((q,))).im, SCplx.lift(S(L2 - P + q)).im)))))
+              And(c.ndim == 1, eq(c.shape[0], P),
+                  Implies(And(q >= 0, q < P), And(eq(SCplx.lift(c.at((q,))).re, SCplx.lift(S(L2 - P + q)).re), eq(SCplx.lift(c.at((q,))).im, SCplx.lift(S(L2 - P + q)).im))))
+              if isinstance(c, SArr) else False)
     vc.ensure('C08/channelize/frame/only-cache-modified', And(fb.fields['window'] is h, eq(fb.fields['num_taps'], taps), eq(fb.fields['num_branches'], B)))
     vc.ensure('C08/channelize/frame/caller-arrays-never-written', And(x.writes == w_x, xprev is None or xprev.writes == w_prev))
 
